@@ -7,5 +7,6 @@ let () =
   | "escape" -> D_escape.run ()
   | "run" -> D_run.run ()
   | "expect" -> D_expect.run ()
+  | "rules" -> D_rules.run ()
   | "validate" -> D_exec.run_validate ()
   | x -> prerr_endline ("unknown " ^ x); exit 2
